@@ -89,6 +89,7 @@ type Fragment struct {
 	FPFile     string            `json:"fp_file"`
 	StateFile  string            `json:"state_file"`
 	Strategies map[string]int    `json:"strategies"`
+	EarlyExit  string            `json:"early_exit,omitempty"` // "rss": resident memory reached SIM_RSS_LIMIT_MB
 }
 
 type WorkerCfg struct {
@@ -173,12 +174,19 @@ func RunWorker(t *testing.T, eng Engine, cfg WorkerCfg) *Fragment {
 	})
 	defer stopWD()
 	startIter, _ := strconv.ParseUint(getenv("SIM_ITER", "0"), 10, 64)
+	rssLimit, _ := strconv.Atoi(getenv("SIM_RSS_LIMIT_MB", "0"))
 	for iter := startIter; ; iter++ {
 		curIter.Store(iter + 1)
 		if cfg.MaxRuns > 0 && fr.Runs >= cfg.MaxRuns {
 			break
 		}
 		if time.Since(start) > cfg.Budget {
+			break
+		}
+		if rssLimit > 0 && iter&63 == 63 && rssMB() > rssLimit {
+			// the race runtime (and the Go heap after very large runs) only grows:
+			// stop here, the driver continues this slot in a fresh process
+			fr.EarlyExit = "rss"
 			break
 		}
 		r := NewRand(cfg.Seed, iter)
@@ -385,6 +393,20 @@ func RunReplay(t *testing.T, eng Engine, path string, log bool) (bool, *Result, 
 		}
 	}
 	return false, res, &rp, nil
+}
+
+// rssMB: resident set size of this process in MiB (0 if unknown).
+func rssMB() int {
+	b, err := os.ReadFile("/proc/self/statm")
+	if err != nil {
+		return 0
+	}
+	f := strings.Fields(string(b))
+	if len(f) < 2 {
+		return 0
+	}
+	pages, _ := strconv.Atoi(f[1])
+	return pages * os.Getpagesize() >> 20
 }
 
 // beat counts executed runs (search, shrink and replay alike).
